@@ -102,8 +102,13 @@ def project(c):
         dc = d["dc_kind"] in ("dc32", "dc64")
         if not dc:
             t_by_port = [0, 0, 0, 0]
-        m = min(t_by_port)
-        t_norm = [t - m for t in t_by_port]
+        # the 32-bit counters may wrap between two ports of one device: unwrap relative to the first open port (the
+        # times of one frame lie within 2^31 ns of each other), then translate so that the smallest is 0
+        first_open = next((p for p in range(4) if open_by_port[p]), 0)
+        base = t_by_port[first_open]
+        rel = [((t - base + (1 << 31)) % (1 << 32)) - (1 << 31) if open_by_port[p] else 0 for p, t in enumerate(t_by_port)]
+        m = min([r for p, r in enumerate(rel) if open_by_port[p]] or [0])
+        t_norm = [r - m if open_by_port[p] else 0 for p, r in enumerate(rel)]
         if max(t_norm) >= (1 << 29):          # sums of three differences must stay below 2^31 in TLC
             big = True
         devs.append(dict(open=[open_by_port[p] for p in POS], times=[t_norm[p] for p in POS], dc=dc))
@@ -138,9 +143,28 @@ def run(pid, tier):
     cases += [raw_case(f"x{i}", rnd) for i in range(80 if q else 2500)]
     raw = sc.run_cases("dc", cases, binary="vsim2")
     trace = os.path.join(sc.wd, "dc.proj.ndjson")
+    wrap_cases = []
     with open(raw) as fi, open(trace, "w") as fo:
         for line in fi:
-            fo.write(json.dumps(project(json.loads(line))) + "\n")
+            c = json.loads(line)
+            fo.write(json.dumps(project(c)) + "\n")
+            # second pass for a part of the trees: the simulation is deterministic, so shifting every device's clock by
+            # what its port 0 latched puts the next run's port 0 time just before the 32-bit wrap
+            if c.get("result") == "ok" and c["case"].get("op") != "raw_ports" and len(wrap_cases) < (60 if q else 1500):
+                c2 = dict(c["case"])
+                c2["id"] = c2["id"] + "w"
+                offs = []
+                for k, d in enumerate(c["devices"]):
+                    off = unl(c["case"]["clock_offsets_ns"][k])
+                    delta = ((1 << 32) - rnd.randint(0, 4000) - unl(d["latched"][0])) % (1 << 32)
+                    offs.append(limbs((off + delta) % (1 << 64)))
+                c2["clock_offsets_ns"] = offs
+                wrap_cases.append(c2)
+    if wrap_cases:
+        raw2 = sc.run_cases("dc-wrap", wrap_cases, binary="vsim2")
+        with open(raw2) as fi, open(trace, "a") as fo:
+            for line in fi:
+                fo.write(json.dumps(project(json.loads(line))) + "\n")
     sc.validate("dc", trace, "DcTopologyTrace", dict(FIXED), constraints=("Judge",),
                 key_fn=lambda c: (c["tree"], c["ndev"], c["result"], c["chain"], tuple(tuple(d["open"]) for d in c["devs"]),
                                   tuple(d["dc"] for d in c["devs"])),
@@ -148,7 +172,9 @@ def run(pid, tier):
     return sc.finish(
         "one case = one simulated tree (or set of devices with arbitrary port reports) initialised by the real MainDevice; "
         "distinct by (shape as open-port pattern, DC mix, size, result)",
-        ["Port times are translated per device by their minimum before they reach TLC (the algorithm only compares and "
+        ["A second pass re-runs part of the trees with every device's clock shifted so that its port 0 latches within 4 us "
+         "before the 32-bit wrap (the simulation is deterministic).",
+         "Port times are unwrapped relative to the first open port and translated per device by their minimum before they reach TLC (the algorithm only compares and "
          "subtracts times of one device); cases whose translated times exceed 2^31 are judged by the monitor only.",
          "Chain exactness is judged where the simulated forwarding delays are equal (with unequal ones the round trip is not "
          "symmetric and no master can measure the one-way delay).",
